@@ -289,7 +289,7 @@ func parseGSUBLookup(src []byte, lookupType uint16) (out GSUBLookup, err error) 
 	default:
 		err = fmt.Errorf("invalid GSUB Loopkup type %d", lookupType)
 	}
-	return out, err
+	return fillNullGSUB(out), err
 }
 
 // AsGSUBLookups returns the GSUB lookup subtables.
@@ -445,7 +445,7 @@ func parseGPOSLookup(src []byte, lookupType uint16) (out GPOSLookup, err error) 
 	default:
 		err = fmt.Errorf("invalid GPOS Loopkup type %d", lookupType)
 	}
-	return out, err
+	return fillNullGPOS(out), err
 }
 
 // AsGPOSLookups returns the GPOS lookup subtables
